@@ -3,9 +3,11 @@ import random
 from common import *
 import expr as X
 import evalcheck
+import dictrep
+import c02_builder
 
 PROP = "C02"
-PROP_FILES = ["Properties/C02.v", "Check/EvalCheck.v"]
+PROP_FILES = ["Properties/C02.v", "Check/EvalCheck.v", "Check/DictCheck.v", "Check/BuilderCheck.v"]
 N = X.num
 
 
@@ -232,6 +234,12 @@ def main(tier, seed, replay=None):
     run = Run(PROP, tier, seed)
     vh, proof = prepare(PROP_FILES, thorough=(tier == "thorough"))
     rng = random.Random(seed)
+    rcase = json.load(open(replay))["case"] if replay else None
+    if rcase is not None and rcase.get("builder"):
+        # replay of a builder case: only that part
+        extra = c02_builder.run_part(run, vh, rng, tier, replay_case=rcase)
+        run.cov.update(extra)
+        return run.finish(proof)
     cases = evalcheck.replay_cases(replay) if replay else gen_cases(rng, tier)
     outs, codes, fails = evalcheck.evaluate(vh, cases)
     evalcheck.judge(run, cases, outs, codes, fails,
@@ -271,13 +279,17 @@ def main(tier, seed, replay=None):
             if o.get("st") != "ok" or o.get("val") != wantd:
                 run.classify_failure(None, {"case": {"raw": True, "family": c["family"], "ctx": c["ctx"], "src": c["src"], "want": want}, "observed": o,
                                             "oracle": "two constructions of one value (family %s) are not interchangeable in context %s" % (c["family"], c["ctx"])})
+    bextra = c02_builder.run_part(run, vh, random.Random(seed * 7919 + 13), tier) if not replay else {}
     fams = {}
     for c in cases:
         k = (c.get("label") or "").split(" ")[0]
         fams[k] = fams.get(k, 0) + 1
     evalcheck.stats(run, cases, outs, codes,
-                    "%d families of construction paths (sugar literal, {|@,@char|..} relation literal, set of spelled tuples, with/without, where, =>, >>, ++, offsets, +>, &, &~, |) each reaching one denotation; contexts: =, !=, {a,b} count, {a:1}(b), <:, union count, subset tests, operator interchange a op c = b op c; pairs inside a family (70%%), across families and against unrelated values; plus %d printed forms compared inside each family; plus every ordered pair inside 10 families written as source text (computed negative zero, halves, tuple projection .~|x| / .|a,b| of dict-entry / item / char / byte tuples, dicts of such entries) in 10 contexts incl. containers of more than 8 members"
+                    "%d families of construction paths (sugar literal, {|@,@char|..} relation literal, set of spelled tuples, with/without, where, =>, >>, ++, offsets, +>, &, &~, |) each reaching one denotation; contexts: =, !=, {a,b} count, {a:1}(b), <:, union count, subset tests, operator interchange a op c = b op c; pairs inside a family (70%%), across families and against unrelated values; plus %d printed forms compared inside each family; plus every ordered pair inside 10 families written as source text (computed negative zero, halves, tuple projection .~|x| / .|a,b| of dict-entry / item / char / byte tuples, dicts of such entries) in 10 contexts incl. containers of more than 8 members; plus constructions built through rel.NewSet / rel.NewTuple (every ordered pair of 18 member kinds x 1-3 members against reversal / one member fewer / one member replaced, boundaries and finding regions, random nested constructions against a reshuffled, mutated or unrelated one): Go types, Count(), members and Equal() against the transcribed builder (Rep/Builder.v) and against the denotation"
                     % (len(families()), nrep) + ("; thorough = every ordered pair inside every family x {=, set count, dict call}" if tier == "thorough" else ""),
-                    {"context_histogram": fams, "repr_comparisons": nrep, "text_family_cases": nraw, "exhaustive": False})
+                    {"context_histogram": fams, "repr_comparisons": nrep, "text_family_cases": nraw, "exhaustive": False, **bextra})
     run.assumptions = ["functions are outside the data fragment", "numbers integer/half-integer < 2^53"]
+    if not replay or json.load(open(replay)).get("case", {}).get("stream") == "dictrep":
+        only = [json.load(open(replay))["case"]["label"]] if replay else None
+        run.cov["dictionary_representation_histories"] = dictrep.run_stream(run, vh, random.Random(seed * 7919 + 13), tier, only=only)
     return run.finish(proof)
